@@ -184,6 +184,12 @@ func Watch(p interface{}) {}
 // for short windows (a few callbacks running concurrently).
 func WatchAll(on bool) {}
 
+// LazyTimers(true): a timer examined by a select need not have fired yet — the goroutine may stay
+// parked on it while everything else runs, and "time passes" (the timer fires) only when nothing
+// else can move, or after Quiesce has returned to the harness. Without it a timer that is examined
+// always fires at once. No effect natively.
+func LazyTimers(on bool) {}
+
 // Depth returns the depth of the calling goroutine's call stack (frames). The executor counts its
 // own frames, the native build asks the runtime; only differences between two calls are meaningful.
 func Depth() int {
